@@ -111,6 +111,10 @@ pub struct PairStats {
     pub oneshot_stalled: bool,
     /// (stale-cache family) max cut distance between A's cache entry for B and A's real frontier
     pub stale_cache_gap: u64,
+    /// (stale-cache family) A's cache for B while A talks to C
+    pub saved_cache: Option<rtlib::rt::PeerCache>,
+    /// full sessions in which one responder segment was cut by the response limit at least twice
+    pub segment_cut_twice: u64,
     /// sessions in which the responder sent the tail of one of its segments starting after a
     /// command the requester holds, although the request sample named no command inside that segment
     /// (the segment was trimmed by coverage propagation from a fork, `cover_up_to`)
@@ -150,6 +154,9 @@ fn step(
     }
     st.cut_responses += out.full_responses as u64;
     st.trimmed_by_coverage += trimmed_by_coverage(w, resp, cur_req, &out) as u64;
+    if out.resp_sizes.len() >= 3 {
+        st.segment_cut_twice += segment_cut_twice(w, resp, &out) as u64;
+    }
     let who = if dir == 0 { "A<-B" } else { "B<-A" };
     for (c, d) in &out.faults {
         st.c17.push((c.clone(), format!("session {} ({who}): {d}", st.sessions)));
@@ -188,6 +195,24 @@ fn step(
     }
     *cur_req = new_req;
     (out, gained)
+}
+
+/// Does some responder segment contribute commands to at least three responses of this session
+/// (i.e. it was cut by the response limit at least twice)?
+fn segment_cut_twice(w: &World, resp: &mut Peer, out: &Outcome) -> bool {
+    use rtlib::rt::{Storage as _, StorageProvider as _};
+    let Ok(storage) = resp.r.client.provider().get_storage(w.graph) else { return false };
+    let mut per_seg: std::collections::BTreeMap<_, std::collections::BTreeSet<usize>> = Default::default();
+    let mut k = 0;
+    for (ri, &n) in out.resp_sizes.iter().enumerate() {
+        for &i in out.delivered.iter().skip(k).take(n) {
+            if let Ok(Some(loc)) = storage.get_location(rtlib::replica::addr(w.ids[i], w.max_cuts[i]), &mut resp.r.buffers.traversal.primary) {
+                per_seg.entry(loc.segment).or_default().insert(ri);
+            }
+        }
+        k += n;
+    }
+    per_seg.values().any(|r| r.len() >= 3)
 }
 
 /// Did this session exercise the responder's coverage trimming of an already pending segment
@@ -363,30 +388,38 @@ pub fn run_pair(p: &Pair<'_>, seed: u64) -> PairStats {
             // real sessions all the way: A <- early B, then A <- C with another cache
             let full = Cfg { mode: Mode::Full, persistent: true };
             let mut a = Peer::new(build(w, &NodeSet::empty(w.n()), p.la).unwrap_or_else(|e| die("replica A", e)));
-            let mut b0 = Peer::new(build(w, p1, p.lb).unwrap_or_else(|e| die("early replica B", e)));
             let mut have = NodeSet::empty(w.n());
-            let mut guard = 0;
-            while !p1.subset_of(&have) {
-                let o = session(w, &mut a, &mut b0, p1, full, &rng, &mut bufs, false);
-                st.steps += o.steps;
-                have = committed(w, &mut a.r).unwrap_or_else(|e| die("replica A (from early B)", e));
-                guard += 1;
-                if guard > w.n() + 2 || !o.faults.is_empty() {
-                    die("replica A (from early B)", format!("setup sessions do not deliver: {:?}", o.faults));
+            // the setup sessions are real sessions of the explored space: what goes wrong in them
+            // is a verdict (with the setup step in the clause), not a harness failure
+            for (stage, target) in [("setup A<-early B", p1), ("setup A<-C", p.sa)] {
+                let mut src = if stage == "setup A<-early B" {
+                    Peer::new(build(w, p1, p.lb).unwrap_or_else(|e| die("early replica B", e)))
+                } else {
+                    // what A remembers about B stays behind; C gets a cache of its own
+                    st.saved_cache = Some(std::mem::replace(&mut a.cache, rtlib::rt::PeerCache::new()));
+                    Peer::new(build(w, p.sa, *lc).unwrap_or_else(|e| die("replica C", e)))
+                };
+                let mut dry = 0;
+                while !target.subset_of(&have) {
+                    let o = session(w, &mut a, &mut src, target, full, &rng, &mut bufs, false);
+                    st.steps += o.steps;
+                    st.sessions += 1;
+                    for (c, d) in &o.faults {
+                        st.c17.push((format!("{c} ({stage})"), format!("{stage}: {d}")));
+                    }
+                    let now = committed(w, &mut a.r).unwrap_or_else(|e| die("replica A (setup)", e));
+                    dry = if now == have { dry + 1 } else { 0 };
+                    have = now;
+                    if dry >= 2 {
+                        st.c16.push((
+                            format!("never-delivered ({stage})"),
+                            format!("{stage}: {dry} consecutive sessions added nothing; A holds {} and still lacks {}{}", have.show(), target.minus(&have).show(), if o.never_ended { "; the responder never reached its end message, so the transport would never commit" } else { "" }),
+                        ));
+                        return st;
+                    }
                 }
             }
-            let cache_for_b = std::mem::replace(&mut a.cache, rtlib::rt::PeerCache::new());
-            let mut c = Peer::new(build(w, p.sa, *lc).unwrap_or_else(|e| die("replica C", e)));
-            guard = 0;
-            while !p.sa.subset_of(&have) {
-                let o = session(w, &mut a, &mut c, p.sa, full, &rng, &mut bufs, false);
-                st.steps += o.steps;
-                have = committed(w, &mut a.r).unwrap_or_else(|e| die("replica A (from C)", e));
-                guard += 1;
-                if guard > w.n() + 2 || !o.faults.is_empty() {
-                    die("replica A (from C)", format!("setup sessions do not deliver: {:?}", o.faults));
-                }
-            }
+            let cache_for_b = st.saved_cache.take().unwrap_or_default();
             if have != *p.sa {
                 die("replica A", format!("setup left A with {}", have.show()));
             }
@@ -506,6 +539,7 @@ fn fold(acc: &mut Acc, p: &Pair<'_>, st: PairStats, prop: &str, states: &mut Has
     acc.count("responses_cut_at_response_max", st.cut_responses);
     acc.count("buffer_probes", st.probes);
     acc.count("sessions_trimming_a_pending_segment_by_coverage", st.trimmed_by_coverage);
+    acc.count("sessions_with_a_segment_cut_twice_by_the_response_limit", st.segment_cut_twice);
     if st.stale_cache_gap > crate::segment_buffer_max() as u64 {
         acc.count("pairs_with_cache_staler_than_segment_window", 1);
     }
@@ -908,6 +942,7 @@ pub fn run(args: &Args, prop: &str) {
         rep.require_nonzero("sessions_with_saturated_sample");
         rep.require_nonzero("converged_pairs");
         rep.require_nonzero("sessions_trimming_a_pending_segment_by_coverage");
+        rep.require_nonzero("sessions_with_a_segment_cut_twice_by_the_response_limit");
         rep.require_nonzero("pairs_with_cache_staler_than_segment_window");
         if prop == "C17" {
             rep.require_nonzero("buffer_probes");
